@@ -3,6 +3,7 @@ from __future__ import annotations
 
 import ast
 import itertools
+import re
 
 from ..core import AnalysisError, RuleResult
 from ..extract import helper_entries
@@ -474,7 +475,47 @@ def rule_r9(ctx):
         names = [t.fields.get("id").value for t in iter_tnodes(pr.result) if t.kind == "Name" and isinstance(t.fields.get("id"), Cst)]
         kws = [k.fields.get("arg").value for t in iter_tnodes(pr.result) if t.kind == "Call" and isinstance(t.fields.get("keywords"), PList) for k in t.fields["keywords"].items if isinstance(k, TNode) and isinstance(k.fields.get("arg"), Cst)]
         checked = "len" in names or "strict" in kws or "ValueError" in names
-        if checked:
+        # a comparison of len(<snapshot>) with the size of the pattern: the bound must be the number of
+        # targets, minus one (and `>=`) when the pattern has a starred target, which may take nothing
+        bad_bound = None
+        for t in iter_tnodes(pr.result):
+            if t.kind != "Compare":
+                continue
+            left = t.fields.get("left")
+            ops = t.fields.get("ops")
+            comps = t.fields.get("comparators")
+            if not (isinstance(left, TNode) and left.kind == "Call" and isinstance(left.fields.get("func"), TNode) and left.fields["func"].kind == "Name"
+                    and isinstance(left.fields["func"].fields.get("id"), Cst) and left.fields["func"].fields["id"].value == "len"):
+                continue
+            if not (isinstance(ops, PList) and len(ops.items) == 1 and isinstance(comps, PList) and len(comps.items) == 1):
+                continue
+            bound = comps.items[0].fields.get("value") if isinstance(comps.items[0], TNode) and comps.items[0].kind == "Constant" else None
+            if not isinstance(bound, Sym):
+                continue
+            lens = [k for k in bound.terms if k.startswith("len(") and k.endswith(".elts)")]
+            if len(lens) != 1 or bound.terms[lens[0]] != 1 or len(bound.terms) != 1:
+                continue
+            prefix = lens[0][4:-1]
+            star_keys = [v for k, v in pr.assign.items() if re.fullmatch(re.escape("isinstance:" + prefix) + r"\[\*\d*\]:Starred", k)]
+            if True in star_keys and False in star_keys:
+                # the generic elements of one list are decided independently (an `any(...)` over the
+                # pattern and the loop over it): a mixed answer says nothing about the pattern as a whole
+                continue
+            starred = True in star_keys
+            op = ops.items[0].kind if isinstance(ops.items[0], TNode) else "?"
+            rr.instances += 1
+            ok = (not starred and op == "Eq" and bound.const == 0) or (starred and ((op == "GtE" and bound.const == -1) or (op == "Gt" and bound.const == -2)))
+            if not ok:
+                bad_bound = bad_bound or (op, bound, starred)
+        if bad_bound and not reported:
+            reported = True
+            op, bound, starred = bad_bound
+            rr.fail(
+                "C13-R9|Assign|length-check-bound",
+                f"PendingAssign.assign_tuple_list: the emitted length check is `len(snapshot) {op} {bound.key()}` for a pattern {'WITH' if starred else 'without'} a starred target: Python needs {'at least len(targets) - 1 values (the star may take nothing): `head, *tail = [x]` is legal' if starred else 'exactly len(targets) values'}; with this bound {'every starred pattern whose source has exactly the minimum length raises ValueError' if starred else 'a wrong number of values is accepted or a right one refused'} [context: {short_ctx(pr, 100)}]",
+                what="Assign|length-check",
+            )
+        elif checked:
             rr.ok("Assign|length-check")
         elif not reported:
             reported = True
